@@ -194,6 +194,7 @@ func (s *Sys) Apply(e int) {
 		s.canon = ""
 		s.Trace = append(s.Trace, s.Canon())
 	}()
+	s.Hist = append(s.Hist, e)
 	pre := s.TakeSnap()
 	if !s.enabled(e, pre) {
 		return // (only reachable when a replay took a different non-deterministic turn)
@@ -219,6 +220,7 @@ func (s *Sys) Apply(e int) {
 			}
 		case len(acc) > 0:
 			s.checkAccepted(name, prePool, acc, post)
+			s.noteStuckOrphans(name, acc, nil, post)
 		default:
 			// stored as (or dropped as) an orphan: main pool and spend index untouched
 			if d := pre.SamePool(post); d != "" {
@@ -269,6 +271,7 @@ func (s *Sys) Apply(e int) {
 		} else if d := pre.SamePool(post); d != "" {
 			s.violf("I6/ProcessOrphans: %s accepted nothing but changed the main pool: %s", name, d)
 		}
+		s.noteStuckOrphans(name, acc, s.W.Txs[a], post)
 	case KBlock:
 		s.applyBlock(a)
 	}
@@ -331,6 +334,13 @@ func descNames(s *Sys, acc []*mempool.TxDesc) []string {
 	return out
 }
 
+// BlockEvent applies a block event outside Apply (used by the free-running race
+// pass, where only one goroutine drives the chain).
+func (s *Sys) BlockEvent(a int) {
+	s.applyBlock(a)
+	s.observeClock()
+}
+
 func (s *Sys) deliver(b *lab.Blk) bool {
 	_, orphan, err := s.bc.ProcessBlock(b.Block(), blockchain.BFNone)
 	if err != nil || orphan {
@@ -388,7 +398,12 @@ func (s *Sys) applyBlock(a int) {
 		switch a {
 		case BMineEmpty:
 		case BMinePool:
-			p, unk := s.RefPool(s.TakeSnap())
+			// (public getters only: this also runs inside the free-running race pass)
+			sn := &Snap{Pool: map[chainhash.Hash]DescInfo{}}
+			for _, d := range s.MP.TxDescs() {
+				sn.Pool[*d.Tx.Hash()] = DescInfo{Fee: d.Fee}
+			}
+			p, unk := s.RefPool(sn)
 			if unk != "" {
 				s.violf("pool/unknown-tx: pool holds %s which was never submitted", unk)
 				return
@@ -413,5 +428,52 @@ func (s *Sys) applyBlock(a int) {
 	want := s.Active[len(s.Active)-1]
 	if got := s.Tip(); got == nil || got.Hash != want.Hash {
 		s.Harness = fmt.Sprintf("after the block event the best block is %v, the harness expected %s", got, want.Name)
+	}
+}
+
+// noteStuckOrphans records (as an observation: the property only bounds orphan
+// storage) orphans that spend an output of a transaction whose orphans were just
+// processed, have every input available and unspent, and are still orphans.
+func (s *Sys) noteStuckOrphans(name string, acc []*mempool.TxDesc, extra *UTx, post *Snap) {
+	processed := map[chainhash.Hash]bool{}
+	if extra != nil {
+		processed[extra.Ref.ID] = true
+	}
+	for _, d := range acc {
+		if d != nil {
+			processed[*d.Tx.Hash()] = true
+		}
+	}
+	tip := s.Tip()
+	if tip == nil {
+		return
+	}
+	utxo, err := s.W.B.Utxos(tip)
+	if err != nil {
+		return
+	}
+	for _, h := range sortedHashes(post.Hook.Orphans) {
+		u, ok := s.W.ByID[h]
+		if !ok {
+			continue
+		}
+		child, avail := false, true
+		for _, in := range u.Ref.Ins {
+			if processed[in.Prev.Hash] {
+				child = true
+			}
+			_, inChain := utxo[in.Prev]
+			_, inPool := post.Pool[in.Prev.Hash]
+			_, spent := post.Hook.Outpoints[in.Prev]
+			if spent || !(inChain || inPool) {
+				avail = false
+			}
+		}
+		if child && avail {
+			s.obs("orphan_left_behind_by_ProcessOrphans")
+			if s.StuckNote == "" {
+				s.StuckNote = fmt.Sprintf("after %s (history %v) orphan %s has all inputs available and unspent but is still an orphan", name, s.W.HistNames(s.Hist), u.Ref.Name)
+			}
+		}
 	}
 }
